@@ -180,28 +180,18 @@ structure SafeDendroArgs (a : DendroArgs) : Prop where
     well-formed XML document — for every dendrogram, leaf names (arbitrary code points) and options. -/
 theorem visualizeDendrogram_wf (ν : Nums) (a : DendroArgs) (d : Drawing) (hν : SafeNums ν) (ha : SafeDendroArgs a)
     (h : visualizeDendrogram ν a = .ok d) : wf (render d.svg) = true := by
-  unfold visualizeDendrogram svgDendrogram at h
-  simp only [bind, Except.bind, pure, Except.pure] at h
+  unfold visualizeDendrogram at h
+  simp only [bind, Except.bind] at h
   split at h
   · simp at h
   rename_i svg hsvg
-  split at hsvg
-  · simp at hsvg
-  rename_i index hindex
-  split at hsvg
-  · simp at hsvg
-  rename_i text htext
-  split at hsvg
-  · simp at hsvg
-  rename_i paths hpaths
-  simp only [Except.ok.injEq] at hsvg
-  subst hsvg
+  obtain ⟨cut, index, text, paths, hcut, hindex, hne, htext, hpaths, rfl⟩ := svgDendrogram_ok hsvg
   rw [writeFile_svg h]
   exact svgDoc_wf hν _ _ (Inner.append (dendroNames_inner hν a index htext)
-    (dendroTree_inner hν a ha.color ha.colors index hpaths))
+    (dendroTree_inner hν a ha.color ha.colors cut index hpaths))
 
 def exampleDendro : DendroArgs :=
-  { merges := [(0, 1), (2, 3)], cutLabels := [0, 0, 1], names := some [py!"a<b", py!"b", py!"c&"] }
+  { merges := [(0, 1), (2, 3)], cutLabels := some [0, 0, 1], names := some [py!"a<b", py!"b", py!"c&"] }
 
 example : SafeDendroArgs exampleDendro := ⟨by decide, standardColors_safe⟩
 /-- the example is drawn (the function returns, with 20 pieces) -/
@@ -221,30 +211,20 @@ example : (match getIndex [(0, 1), (3, 2)] true with | .ok l => l | .error _ => 
 
 /-- `visualize_dendrogram`: whenever it returns, the returned string — read back by the recogniser — is a well-formed
     document with root `svg`, exactly three edge paths per merge, no other shape, and one `text` element per leaf
-    `0 … n-1` in this order, the `i`-th showing the plain characters of `names[i]`. -/
+    `0 … n-1` in this order, the `i`-th showing exactly `names[i]` (characters XML cannot represent shown as U+FFFD). -/
 theorem visualizeDendrogram_counts (ν : Nums) (a : DendroArgs) (d : Drawing) (hν : SafeNums ν)
     (ha : SafeDendroArgs a) (h : visualizeDendrogram ν a = .ok d) :
     docMeets (render d.svg) (expectedDendrogram a) = true := by
-  unfold visualizeDendrogram svgDendrogram at h
-  simp only [bind, Except.bind, pure, Except.pure] at h
+  unfold visualizeDendrogram at h
+  simp only [bind, Except.bind] at h
   split at h
   · simp at h
   rename_i svg hsvg
-  split at hsvg
-  · simp at hsvg
-  rename_i index hindex
-  split at hsvg
-  · simp at hsvg
-  rename_i text htext
-  split at hsvg
-  · simp at hsvg
-  rename_i paths hpaths
-  simp only [Except.ok.injEq] at hsvg
-  subst hsvg
+  obtain ⟨cut, index, text, paths, hcut, hindex, hne, htext, hpaths, rfl⟩ := svgDendrogram_ok hsvg
   rw [writeFile_svg h]
   have hlen := getIndex_length a.merges a.reorder index hindex
   have hi : Inner (text ++ paths) := Inner.append (dendroNames_inner hν a index htext)
-    (dendroTree_inner hν a ha.color ha.colors index hpaths)
+    (dendroTree_inner hν a ha.color ha.colors cut index hpaths)
   have hp := dendroTree_shape hpaths
   cases hn : a.names with
   | none =>
@@ -255,7 +235,7 @@ theorem visualizeDendrogram_counts (ν : Nums) (a : DendroArgs) (d : Drawing) (h
   | some names =>
     have hs := Shape.append (dendroNames_shape hn htext) hp
     have := docMeets_svgDoc hν true false [] (fun _ hc => by simp at hc) hi hs
-    simpa [expectedDendrogram, hn, hlen, Summary.add, plainOf_displayed, Function.comp_def] using this
+    simpa [expectedDendrogram, hn, hlen, Summary.add] using this
 
 /-- the inputs of `visualize_graph` the count statement is about: a membership matrix whose column indices are within
     its shape, a canvas with a non-zero dimension and a non-zero scale, node indices of the stored entries within the
